@@ -62,7 +62,9 @@ def _nest(rng, level, st):
 
 def gen(rng, tier, i):
     p = Plan()
-    p.file('mcfg.h', mcfg({}))
+    # one master in three protects its own error_handler with catch() (as real mudlibs do): a catch() that runs between the
+    # moment an error is raised and the moment the failing evaluation's own catch receives it
+    p.file('mcfg.h', mcfg({'EH_CATCH': 1} if rng.random() < 0.35 else {}))
     p.cfg('Port', '4000:telnet')
     p.cfg('MaxEvaluationCost', 200000)
     p.cfg('MaxCallDepth', rng.choice((30, 50)))
@@ -236,7 +238,10 @@ def check_point(plan, res, info):
             elif w[0] == 'CATCH' and w[1] in stack:
                 while stack and stack[-1] != w[1]: stack.pop()
                 if stack: stack.pop()
-    if stack and not evalcost:
+    # a fault that fires inside the master's own error_handler (which may run under the handler's own catch) is not the
+    # failing evaluation's error: the evaluation's catch then yields the error the handler was called for
+    in_master = 'prog=master.c' in res.events[fidx].rest or 'prog=/master.c' in res.events[fidx].rest
+    if stack and not evalcost and not in_master:
         inner = stack[-1]
         nxt = next((e.rest for e in res.events[fidx:] if e.kind == 'R' and (e.rest.startswith('CATCH ') or e.rest.startswith('CATCHIN '))), None)
         # only judged when the very next catch event is the completion of that innermost catch
